@@ -42,8 +42,19 @@ def tests_pass():
     return p, f, r.returncode
 
 def demo(n):
-    r = sh(f"cargo test --offline --test demo{n} 2>&1", cwd=WT)
+    feats = "--features actix-web,axum " if FEATURES else ""
+    if SHELL_DEMO:
+        # a script that exits 0 iff the property holds (used for the derive-rejection property)
+        os.makedirs(f"{WT}/OUT", exist_ok=True)
+        for f in (f"demo{n}.sh", f"demo{n}.rs"):
+            shutil.copy(f"{SHELL_DEMO}/{f}", f"{WT}/OUT/{f}")
+        r = sh(f"sh OUT/demo{n}.sh 2>&1", cwd=WT)
+        return r.returncode == 0, r.stdout[-1500:]
+    r = sh(f"cargo test --offline {feats}--test demo{n} 2>&1", cwd=WT)
     return r.returncode == 0, r.stdout[-1500:]
+
+FEATURES = False
+SHELL_DEMO = None
 
 def run_checks():
     r = sh(f"cargo build -q -p dv_gen && {SE}/target/debug/dv_gen 1 generated/src/types.rs && cargo build -q -p dv_check && cargo build -q -p dv_http", cwd=MH)
@@ -62,6 +73,10 @@ def run_checks():
 def main():
     outdir, n, sid = sys.argv[1], sys.argv[2], sys.argv[3]
     patch = f"{outdir}/patch{n}.diff"; demo_src = f"{outdir}/demo{n}.rs"; meta_src = f"{outdir}/meta{n}.json"
+    global FEATURES, SHELL_DEMO
+    FEATURES = sid.startswith("C20")
+    if os.path.exists(f"{outdir}/demo{n}.sh"):
+        SHELL_DEMO = outdir
     prepare()
     log = {"seed_id": sid, "source_dir": outdir}
     # demo on the untouched tree
@@ -74,7 +89,9 @@ def main():
         print(json.dumps(log, indent=1)); sys.exit(1)
     ok_patched, tail = demo(n)
     log["demo_fails_with_change"] = not ok_patched
-    os.remove(f"{WT}/tests/demo{n}.rs")
+    if os.path.exists(f"{WT}/tests/demo{n}.rs"):
+        os.remove(f"{WT}/tests/demo{n}.rs")
+    shutil.rmtree(f"{WT}/OUT", ignore_errors=True)
     p, f, rc = tests_pass()
     log["suite_with_change"] = {"passed": p, "failed": f, "exit": rc}
     valid = ok_clean and (not ok_patched) and f == 0 and rc == 0 and p >= 45
@@ -90,6 +107,8 @@ def main():
         d = f"/verif/seeded/{sid}"
         os.makedirs(d, exist_ok=True)
         shutil.copy(patch, f"{d}/patch.diff"); shutil.copy(demo_src, f"{d}/demo.rs")
+        if SHELL_DEMO:
+            shutil.copy(f"{outdir}/demo{n}.sh", f"{d}/demo.sh")
         meta = json.load(open(meta_src)) if os.path.exists(meta_src) else {}
         meta.update({"seed_id": sid, "breaks_property": meta.get("property", sid[:3]),
                      "confirmed_by_me": {"demo_passes_without_change": ok_clean, "demo_fails_with_change": not ok_patched,
